@@ -65,6 +65,28 @@ def s_oracle(case, h):
                     if bad:
                         fails.append({"what": f"{agg} group {key}: {bad[0]}={rec[bad[0]]} but its units sum to {acc[colnames.index(bad[0])]}", "kind": "sum", "agg": agg})
                         break
+            if e != "margin" and pi in ("gaussian", "nonparametric"):
+                # interval columns sit on the row of the group they were computed for: every group has finite bounds, and a group none of whose
+                # units is outstanding carries its counted votes in all three columns (a shifted or shortened interval vector breaks both)
+                outstanding = set()
+                for r in recs:
+                    if r["unit_category"] == "expected" and int(r["reporting"]) == 0:
+                        k = keys_of(r["geographic_unit_fips"], r["postal_code"])
+                        outstanding.add(tuple(k[c] for c in cols))
+                for rec in tbl["rows"]:
+                    key = tuple(rec[c] for c in cols)
+                    for a in p["prediction_intervals"]:
+                        lo, hi = rec.get(f"lower_{a}_{e}"), rec.get(f"upper_{a}_{e}")
+                        if lo is None or hi is None or lo != lo or hi != hi:
+                            fails.append({"what": f"{agg} group {key}: no interval at level {a} (lower {lo}, upper {hi})", "kind": "interval-missing", "agg": agg})
+                            break
+                        if key not in outstanding and not (lo == hi == rec[f"results_{e}"] == rec[f"pred_{e}"]):
+                            fails.append({"what": f"{agg} group {key} has no outstanding unit, counted votes {rec[f'results_{e}']}, but its level-{a} interval is [{lo}, {hi}] "
+                                                  f"around {rec[f'pred_{e}']} (interval of another row)", "kind": "interval-row-misaligned", "agg": agg})
+                            break
+                    else:
+                        continue
+                    break
             if e == "margin":
                 for rec in tbl["rows"]:
                     for a in p["prediction_intervals"]:
@@ -158,6 +180,16 @@ def jobs_for(chk):
     for i in range(4 if chk.tier == "quick" else 40):
         jobs.append((rng.randint(0, 2**31), {"pi_method": "bootstrap", "office": "H", "n_states": 1,
                                              "aggregates": ["postal_code", "district", "county_fips", "unit"]}))
+    # boundary family: groups of a sub-state table without any reporting unit (a county where nothing has reached the threshold; county
+    # units, where every outstanding county is such a group), for the estimators that add counted votes to modelled bounds
+    for i in range(6 if chk.tier == "quick" else 60):
+        pi = ["gaussian", "nonparametric", "gaussian"][i % 3]
+        kw = {"pi_method": pi, "office": ["S", "P"][i % 2], "aggregates": ["postal_code", "county_classification", "county_fips", "unit"], "n_unexpected": i % 2}
+        if i % 2:
+            kw.update({"unit_type": "county", "frac_reporting": 0.6})
+        else:
+            kw.update({"unit_type": "precinct", "dark_group": True})
+        jobs.append((rng.randint(0, 2**31), kw))
     return jobs
 
 
